@@ -115,6 +115,24 @@ def limit_cases(quick):
     return cases
 
 
+def burst_cases(rnd, quick):
+    """Many small chunks that are all ready in one poll (more than the parser takes per poll), ending inside every piece of the grammar."""
+    cases = []
+    fields = [{"name": "alpha", "content": "x" * 40 + "\r\n--P" + "y" * 30}, {"name": "beta", "content": "\r\n-" * 12}, {"name": "c", "content": ""}]
+    base = build(fields)
+    n = len(base["body"])
+    for seg in (1, 2, 3):
+        for burst in (16, 17, 40, 1000):
+            c = build(fields, segs=[seg] * (n // seg + 1), cls="burst")
+            c["burst"] = burst
+            cases.append(c)
+    for t in (rnd.sample(range(1, n), 6) if quick else range(1, n, 3)):
+        c = build(fields, cut=t, segs=[1] * t, cls="burst-truncated")
+        c["burst"] = 64
+        cases.append(c)
+    return cases
+
+
 def random_cases(rnd, n):
     cases = []
     alpha = ["x", "y", "\r", "\n", "-", "P", "Q", "\r\n", "--", "\r\n--", "\r\n--P"]
@@ -163,7 +181,7 @@ def run(rep):
     cap = 3000 if quick else 60000
     sc = rnd.sample(sc, cap) if len(sc) > cap else sc
     cases = [from_model(tc) for tc in sc]
-    extra = directed(rnd, quick) + random_cases(rnd, 300 if quick else 6000) + limit_cases(quick)
+    extra = directed(rnd, quick) + random_cases(rnd, 300 if quick else 6000) + limit_cases(quick) + burst_cases(rnd, quick)
     rep.cov["distinct_nontrivial"] = len({c["body"] + "|" + json.dumps(c["segs"]) for c in cases + extra})
     rep.cov["rule"] = ("(a) MpScan: all field contents up to the length bound over {x, CR, LF, '-', boundary letters} x every segmentation x every "
                        "truncation point, enumerated by TLC and concretised one byte per symbol; (b) look-alike contents in 2-field bodies cut "
